@@ -29,9 +29,19 @@ pub enum T {
     A0 = 5,
     /// synthetic `fn() -> u32` whose first bytes straddle two pages (second page r-x)
     FS = 6,
+    /// synthetic thunk `jmp [rip+0]` forwarding to slot 14 (a thin wrapper: faking it must not touch slot 14)
+    TH = 7,
+    /// two synthetic 6-byte functions packed 8 bytes apart (no alignment padding between them)
+    P0 = 8,
+    P1 = 9,
+    /// synthetic page-aligned `fn() -> u32` exactly 128 MiB above the arena, so that the
+    /// allocator's first hint is an occupied page holding foreign code
+    PA = 10,
 }
-pub const NT: usize = 7;
-pub const ALL_T: [T; NT] = [T::F0, T::F1, T::B0, T::G, T::C, T::A0, T::FS];
+pub const NT: usize = 11;
+pub const ALL_T: [T; NT] = [T::F0, T::F1, T::B0, T::G, T::C, T::A0, T::FS, T::TH, T::P0, T::P1, T::PA];
+pub const PA_ADDR: u64 = ARENA + 0x800_0000;
+pub const PACKED: u64 = ARENA + 0xA00;
 
 /// installation flavours
 #[derive(Clone, Copy, PartialEq, Eq, Hash, Debug, PartialOrd, Ord)]
@@ -102,6 +112,10 @@ fk0!(fk_f0_u, 0xC0);
 fk0!(fk_f1_a, 0xA1);
 fk0!(fk_fs_a, 0xA6);
 fk0!(fk_fs_b, 0xB6);
+fk0!(fk_th_a, 0xA7);
+fk0!(fk_p0_a, 0xA8);
+fk0!(fk_p1_a, 0xA9);
+fk0!(fk_pa_a, 0xAA);
 #[inline(never)]
 pub fn fk_g_a(_x: u32) -> u32 {
     std::hint::black_box(0xA3)
@@ -122,6 +136,10 @@ pub fn orig(t: T) -> u32 {
         T::C => 3,
         T::A0 => 6,
         T::FS => 0x10F5,
+        T::TH => 0x100E,
+        T::P0 => 0x2000,
+        T::P1 => 0x2001,
+        T::PA => 0x3000,
     }
 }
 
@@ -143,6 +161,10 @@ pub fn faked(t: T, k: K) -> u32 {
         (T::A0, K::AsyncV2) => 72,
         (T::FS, K::RawA) => 0xA6,
         (T::FS, K::RawB) => 0xB6,
+        (T::TH, K::RawA) => 0xA7,
+        (T::P0, K::RawA) => 0xA8,
+        (T::P1, K::RawA) => 0xA9,
+        (T::PA, K::RawA) => 0xAA,
         _ => panic!("harness: no such installation {t:?} {k:?}"),
     }
 }
@@ -157,6 +179,7 @@ pub fn valid(t: T, k: K) -> bool {
             | (T::C, K::RawA)
             | (T::A0, K::AsyncV1 | K::AsyncV2)
             | (T::FS, K::RawA | K::RawB)
+            | (T::TH | T::P0 | T::P1 | T::PA, K::RawA)
     )
 }
 
@@ -219,8 +242,20 @@ impl World {
                 arena::write(slot_addr(i), &arena::x64_ret_const(0x1000 + i as u32, 16));
             }
             arena::write(FS_ADDR, &arena::x64_ret_const(0x10F5, 16));
+            // slot 13: jmp [rip+0] ; .quad slot 14
+            let mut th = vec![0xFF, 0x25, 0, 0, 0, 0];
+            th.extend_from_slice(&slot_addr(14).to_le_bytes());
+            arena::write(slot_addr(13), &th);
+            arena::write(PACKED, &arena::x64_ret_const(0x2000, 8));
+            arena::write(PACKED + 8, &arena::x64_ret_const(0x2001, 8));
         }
         assert!(arena::protect(ARENA, ARENA_LEN, arena::RX));
+        arena::map_fixed(PA_ADDR, 0x1000, arena::RW).expect("page-aligned target page");
+        unsafe {
+            std::ptr::write_bytes(PA_ADDR as *mut u8, 0xCC, 0x1000);
+            arena::write(PA_ADDR, &arena::x64_ret_const(0x3000, 16));
+        }
+        assert!(arena::protect(PA_ADDR, 0x1000, arena::RX));
         let a0_addr = {
             let fut = a0(0);
             poll_fn_addr(&fut) as u64
@@ -233,6 +268,10 @@ impl World {
             libc::atoi as *const () as u64,
             a0_addr,
             FS_ADDR,
+            slot_addr(13),
+            PACKED,
+            PACKED + 8,
+            PA_ADDR,
         ];
         let mut w = World { addr, pre: Vec::new(), arena_pre: Vec::new(), with_fs };
         w.pre = ALL_T.iter().map(|&t| w.image(t)).collect();
@@ -248,6 +287,7 @@ impl World {
     /// history never profits from a page an earlier history left writable.
     pub fn reprotect(&self) {
         assert!(arena::protect(ARENA, ARENA_LEN, arena::RX));
+        assert!(arena::protect(PA_ADDR, 0x1000, arena::RX));
         for &t in &[T::G, T::C, T::A0] {
             let a = self.addr[t as usize] & !0xFFF;
             arena::protect(a, 0x2000, arena::RX);
@@ -257,7 +297,7 @@ impl World {
     /// Call the target the way a user would and return what came back (for A0 the awaited value).
     pub fn call(&self, t: T) -> u32 {
         match t {
-            T::F0 | T::F1 | T::B0 | T::FS => unsafe { arena::call_u32(self.addr[t as usize]) },
+            T::F0 | T::F1 | T::B0 | T::FS | T::TH | T::P0 | T::P1 | T::PA => unsafe { arena::call_u32(self.addr[t as usize]) },
             T::G => g(5),
             T::C => unsafe {
                 let f: AtoiFn = std::hint::black_box(libc::atoi as AtoiFn);
@@ -271,7 +311,7 @@ impl World {
     /// function, another instantiation family, the sibling async function, a libc neighbour.
     pub fn call_non_targets(&self) -> Vec<u32> {
         let mut v = Vec::new();
-        for i in [6usize, 7, 11, 12] {
+        for i in [6usize, 7, 11, 12, 14, 15] {
             v.push(unsafe { arena::call_u32(slot_addr(i)) });
         }
         v.push(g_sibling(5));
@@ -286,7 +326,7 @@ impl World {
     }
 
     pub fn non_target_expect() -> Vec<u32> {
-        vec![0x1006, 0x1007, 0x100B, 0x100C, 22, 1001, 4001, 7, 9]
+        vec![0x1006, 0x1007, 0x100B, 0x100C, 0x100E, 0x100F, 22, 1001, 4001, 7, 9]
     }
 }
 
@@ -348,6 +388,18 @@ pub fn install(w: &World, injector: &mut InjectorPP, t: T, k: K) {
         (T::FS, K::RawB) => injector
             .when_called(inj::func!(as_fn0(a), fn() -> u32))
             .will_execute_raw(inj::func!(fk_fs_b, fn() -> u32)),
+        (T::TH, K::RawA) => injector
+            .when_called(inj::func!(as_fn0(a), fn() -> u32))
+            .will_execute_raw(inj::func!(fk_th_a, fn() -> u32)),
+        (T::P0, K::RawA) => injector
+            .when_called(inj::func!(as_fn0(a), fn() -> u32))
+            .will_execute_raw(inj::func!(fk_p0_a, fn() -> u32)),
+        (T::P1, K::RawA) => injector
+            .when_called(inj::func!(as_fn0(a), fn() -> u32))
+            .will_execute_raw(inj::func!(fk_p1_a, fn() -> u32)),
+        (T::PA, K::RawA) => injector
+            .when_called(inj::func!(as_fn0(a), fn() -> u32))
+            .will_execute_raw(inj::func!(fk_pa_a, fn() -> u32)),
         _ => panic!("harness: no such installation {t:?} {k:?}"),
     }
 }
